@@ -211,35 +211,35 @@ def _range_maintenance(ctx):
     # adjust
     adjust = K.one([f for f in group.live_methods()
                     if f.name != '__init__' and any(
-                        isinstance(s, ast.AugAssign) and
-                        N.txt(s.target) == 'self.available'
-                        for s in K.walk_no_nested(f.node))],
+                        op != 'elem' for _n, op, _r in _pool_ops(ctx, f))],
                    'IdentityGroup method adjusting the pool in place')
     graph = ctx.cfg(adjust)
     new = adjust.params()[1]
     facts = N.must_facts(graph, nz)
     shrink = N.cmp_atom(ast.Name(id=new), '<',
                         ast.parse('self.count', mode='eval').body)
+
+    def under(node, atom):
+        # the fact, read directly or through a local copy of self.count
+        return atom in facts[node]
     grow_ok = shrink_ok = False
-    for node in graph.nodes:
-        if node.kind != 'stmt' or not isinstance(node.ast, ast.AugAssign) \
-                or N.txt(node.ast.target) != 'self.available':
+    for node, oper, rng in _pool_ops(ctx, adjust):
+        if oper == 'elem':
             continue
-        rng = _range_args(node.ast.value)
         if rng is None:
             ctx.fail('C05.3', adjust, node, 'pool adjusted by something '
-                     'other than set(range(a, b))')
+                     'other than a range(a, b)')
             continue
         lo, hi = rng
-        if isinstance(node.ast.op, ast.Sub):
-            good = (lo, hi) == (new, 'self.count') and shrink in facts[node]
+        if oper == 'remove':
+            good = (lo, hi) == (new, 'self.count') and under(node, shrink)
             shrink_ok = shrink_ok or good
             ctx.ob('C05.3', adjust, node, good,
                    'shrink removes range(%s, %s) under %s' % (
                        lo, hi, sorted(map(N.show, facts[node]))))
-        elif isinstance(node.ast.op, (ast.BitOr, ast.BitXor)):
+        elif oper in ('add', 'toggle'):
             good = (lo, hi) == ('self.count', new) and \
-                N.negate(shrink) in facts[node]
+                under(node, N.negate(shrink))
             grow_ok = grow_ok or good
             ctx.ob('C05.3', adjust, node, good,
                    'grow adds range(%s, %s) under %s' % (
@@ -253,9 +253,13 @@ def _range_maintenance(ctx):
     ok = bool(sets)
     for node in sets:
         after = C.reach_after(node, edge_ok=C.no_exc)
-        if any(isinstance(m.ast, ast.AugAssign) and
-               N.txt(m.ast.target) == 'self.available' for m in after
-               if m.kind == 'stmt'):
+        pool_nodes = [n for n, op, _r in _pool_ops(ctx, adjust)
+                      if op != 'elem']
+        count_now = [n for n in pool_nodes if any(
+            'self.count' in N.txt(a) for c in C.node_calls(n)
+            for a in ast.walk(c)) or
+            (n.kind == 'stmt' and 'self.count' in N.txt(n.ast))]
+        if any(m in count_now for m in after):
             ok = False
     reach_no_set = K.cut_reach(graph, graph.entry,
                                cut_node=lambda n: n in sets,
@@ -395,16 +399,56 @@ def _model_removal(ctx):
     ctx.require(count >= 1, 'removal of an instance from Cell.apps')
 
 
-def _range_args(expr):
+_POOL_METHODS = {'difference_update': 'remove', 'update': 'add',
+                 'symmetric_difference_update': 'toggle',
+                 'add': 'elem', 'discard': 'elem', 'remove': 'elem',
+                 'pop': 'elem'}
+_POOL_OPS = {ast.Sub: 'remove', ast.BitOr: 'add', ast.BitXor: 'toggle'}
+
+
+def _pool_ops(ctx, func):
+    """In-place changes of self.available in func:
+    [(node, 'remove'|'add'|'toggle'|'elem'|'other', (lo, hi) | None)], the
+    range bounds after copy propagation of the function's locals."""
+    graph = ctx.cfg(func)
+    out = []
+    for node in graph.nodes:
+        if node.kind == 'stmt' and isinstance(node.ast, ast.AugAssign) and \
+                N.txt(node.ast.target) == 'self.available':
+            out.append((node, _POOL_OPS.get(type(node.ast.op), 'other'),
+                        _range_args(func, node.ast.value)))
+        elif node.kind == 'stmt' and isinstance(node.ast, ast.Assign) and \
+                any(N.txt(t) == 'self.available' for t in node.ast.targets):
+            val = node.ast.value
+            if isinstance(val, ast.BinOp) and \
+                    N.txt(val.left) == 'self.available':
+                out.append((node, _POOL_OPS.get(type(val.op), 'other'),
+                            _range_args(func, val.right)))
+            else:
+                out.append((node, 'other', None))
+        else:
+            for call in C.node_calls(node):
+                if isinstance(call.func, ast.Attribute) and \
+                        N.txt(call.func.value) == 'self.available' and \
+                        call.func.attr in _POOL_METHODS:
+                    oper = _POOL_METHODS[call.func.attr]
+                    out.append((node, oper, _range_args(
+                        func, call.args[0]) if call.args and
+                        oper != 'elem' else None))
+    return out
+
+
+def _range_args(func, expr):
     """set(range(a, b)) / set(xrange(a, b)) -> (a_text, b_text)."""
+    inner = expr
     if isinstance(expr, ast.Call) and K.callee_text(expr) in ('set',
                                                               'frozenset') \
             and len(expr.args) == 1:
         inner = expr.args[0]
-        if isinstance(inner, ast.Call) and \
-                K.callee_text(inner).split('.')[-1] in ('range', 'xrange') \
-                and len(inner.args) == 2:
-            return N.txt(inner.args[0]), N.txt(inner.args[1])
+    if isinstance(inner, ast.Call) and \
+            K.callee_text(inner).split('.')[-1] in ('range', 'xrange') \
+            and len(inner.args) == 2:
+        return K.rtxt(func, inner.args[0]), K.rtxt(func, inner.args[1])
     return None
 
 
